@@ -68,6 +68,42 @@ func ruleC10Valid(p *Prog, a *Anchors, r *Report) {
 			}
 		}
 	}
+	// the level the root test reads is the one the tag dispatcher counts: it is raised before a tag's parser is called
+	// (and lowered after it). A test of a field that nothing updates accepts `extends` at any depth.
+	{
+		counted := ""
+		for _, f := range p.inPkgFuncsSorted(a.CompileReach()) {
+			// the dispatcher: calls a tag parser through a function value
+			var dyn ssa.Instruction
+			for _, b := range f.Blocks {
+				for _, in := range b.Instrs {
+					if c, ok := in.(*ssa.Call); ok && !c.Common().IsInvoke() && c.Common().StaticCallee() == nil {
+						if _, isB := c.Common().Value.(*ssa.Builtin); !isB && c.Common().Signature().Results().Len() == 2 && c.Common().Signature().Params().Len() == 3 {
+							dyn = in
+						}
+					}
+				}
+			}
+			if dyn == nil {
+				continue
+			}
+			if MustPass(dyn, func(x ssa.Instruction) bool {
+				st, ok := x.(*ssa.Store)
+				if !ok || !isFieldAddrOf(st.Addr, "Template", "level") {
+					return false
+				}
+				bo, ok := st.Val.(*ssa.BinOp)
+				return ok && bo.Op == token.ADD && loadsField(bo.X, "Template", "level")
+			}) {
+				counted = p.FuncName(f)
+			}
+		}
+		if counted != "" {
+			r.OK(p.FuncName(ext)+":level-is-counted", p.Pos(ext.Pos()), "Template.level is raised by %s before a tag's parser is called", counted)
+		} else {
+			r.Bad(p.FuncName(ext)+":level-is-counted", p.Pos(ext.Pos()), "the root-level test reads Template.level, but no tag dispatcher raises that field before it calls a tag's parser: the test never fires and {%% extends %%} inside a block, a branch or a loop compiles")
+		}
+	}
 	if n < 2 {
 		r.Bad(p.FuncName(ext)+":links", p.Pos(ext.Pos()), "the extends parser must set both Template.parent (of the child) and Template.child (of the parent); found %d link stores", n)
 	}
